@@ -636,9 +636,20 @@ class ClientTls(Client):
         except OSError as ex:
             if ex.errno in (ssl.SSL_ERROR_WANT_READ, ssl.SSL_ERROR_WANT_WRITE):
                 return False
-            elif ex.errno in (ssl.SSL_ERROR_EOF, ):
-                self.close()
-                raise   # should give up here nicely
+            elif ex.errno in (ssl.SSL_ERROR_EOF,
+                              errno.ECONNABORTED,
+                              errno.ECONNRESET,
+                              errno.EPIPE,
+                              errno.ENETRESET,
+                              errno.ENETUNREACH,
+                              errno.EHOSTUNREACH,
+                              errno.ENETDOWN,
+                              errno.EHOSTDOWN,
+                              errno.ETIMEDOUT,
+                              errno.ECONNREFUSED):
+                self.close()  # server side went away during handshake
+                self.cutoff = True  # give up here nicely, connect starts over
+                return False
             else:
                 self.close()
                 raise
